@@ -249,7 +249,9 @@ func (env *specEnv) eval(e *SExpr) sval {
 			// slice X that does not depend on the binders, quantify over the absolute position
 			// k = off(X)+b instead, so that the element read is select(row, k) with k a plain
 			// variable (a usable E-matching trigger; "off+b" inside a select is not).
-			if so == smt.Int && !fv.opt.NoIndexCOV {
+			// (only for universal binders: an existential needs a witness, and the relative index is
+			// the one that survives reallocation of the slice)
+			if so == smt.Int && e.Op == "forall" && !fv.opt.NoIndexCOV {
 				names := map[string]bool{}
 				for _, bb := range e.Vars {
 					names[bb.Name] = true
